@@ -84,9 +84,9 @@ func (w *fgWalker) reachesHeaderRead(fn *ssa.Function) bool {
 	if v, ok := w.reachH[fn]; ok {
 		return v
 	}
-	res := false
+	res := callsDirectly(fn, w.hdrFn)
 	for g := range w.g.u.reach([]*ssa.Function{fn}) {
-		if g == w.hdrFn {
+		if g == w.hdrFn || callsDirectly(g, w.hdrFn) {
 			res = true
 		}
 	}
